@@ -17,7 +17,10 @@ RULE = (
     "digits and underscores, units added in shuffled (non-lexicographic, interleaved) order, sometimes units "
     "outside complete registers; 0-4 symbols used in shuffled order inside Rz/Rx expressions; H/CX/Measure gates; "
     "each loaded by guppy.load_pytket with use_arrays in {False, True} and lowered by the real compile_outer; "
-    "plus @guppy.pytket stubs (the exact signature and near-misses: wrong count/order/flags/return/body). "
+    "a fixed list of boundary shapes in both modes (no qubits with one/several bit registers, no bits, nothing at all, "
+    "only and many 1-element registers, no parameters) and a random degenerate stream of the same kinds (purely classical "
+    "circuits carry SetBits ops); "
+    "plus @guppy.pytket stubs (a fixed list of single-deviation stubs incl. `@owned` qubits, and random near-misses: wrong count/order/flags/return/body). "
     "non-trivial = at least two qubit registers or two symbols or one bit (load), any stub case; distinct by "
     "canonical case description"
 )
@@ -48,7 +51,7 @@ MANIFEST = {
     "compared with the Lean driver and with an independent end-to-end oracle using tket's own port labels.",
     "level_note": "Partial: Tk2Circuit and state semantics are not modelled; the inner function's port order is an assumption read "
     "from tket's metadata on every case. Two local API-drift shims (Tk2Circuit over CompilationState, Node.metadata) are needed to run "
-    "compile_outer on the installed tket 0.15.9/hugr 0.18.6. Correspondence is sampling (quick ~170, thorough ~3300 cases).",
+    "compile_outer on the installed tket 0.15.9/hugr 0.18.6. Correspondence is sampling (quick ~220, thorough ~4050 cases, boundary shapes always included).",
     "technique": "Lean 4 proof over a hand-written model + T-obj wiring extraction from the real lowering + independent oracle",
     "design_ref": "DESIGN.md §5 C26",
     "ready": True,
@@ -125,6 +128,8 @@ def build_circuit(case):
             getattr(c, op[0])(e, qs[op[2]])
         elif op[0] == "Measure":
             c.Measure(qs[op[1]], bs[op[2]])
+        elif op[0] == "SetBits":
+            c.add_c_setbits([bool(v) for v in op[1]], [bs[i] for i in op[2]])
         else:
             raise AssertionError(op)
     return c
@@ -606,13 +611,38 @@ def oracle_stub(case):
 
 
 # ------------------------------------------------------------------ generators
-def gen_circuit(rng, small=False, allow_stray=True, odd_syms=False):
+def gen_circuit(rng, small=False, allow_stray=True, odd_syms=False, degenerate=False):
     nqr = rng.choice([1, 1, 2, 2, 3, 4]) if not small else rng.choice([1, 1, 2])
     nbr = rng.choice([0, 1, 1, 2, 3]) if not small else rng.choice([0, 1, 2])
+    sizes = [1, 1, 2, 3]
+    if degenerate:
+        # boundary shapes: no qubits at all, no bits, only 1-element registers, many registers
+        k = rng.randrange(6)
+        if k == 0:
+            nqr, nbr = 0, rng.choice([1, 2, 3])
+        elif k == 1:
+            nqr, nbr = 0, rng.choice([0, 1])
+        elif k == 2:
+            nqr, nbr, sizes = rng.choice([3, 5, 6]), rng.choice([0, 3, 5]), [1]
+        elif k == 3:
+            nqr, nbr = rng.choice([1, 2]), 0
+        elif k == 4:
+            nqr, nbr, sizes = 1, 1, [1]
+        else:
+            nqr, nbr = rng.choice([0, 1]), rng.choice([1, 4])
+        allow_stray = allow_stray and nqr > 0 and rng.random() < 0.3
     qn = rng.sample(QNAMES, nqr)
     bn = rng.sample(BNAMES, nbr)
-    qubits = [[n, i] for n in qn for i in range(rng.choice([1, 1, 2, 3]))]
-    bits = [[n, i] for n in bn for i in range(rng.choice([1, 1, 2, 3]))]
+    qubits = [[n, i] for n in qn for i in range(rng.choice(sizes))]
+    bits = [[n, i] for n in bn for i in range(rng.choice(sizes))]
+    if not qubits:
+        # a purely classical circuit: no gates, no symbols; optionally some SetBits
+        rng.shuffle(bits)
+        ops = []
+        for _ in range(rng.randrange(0, 3) if bits else 0):
+            idx = rng.sample(range(len(bits)), rng.randrange(1, len(bits) + 1))
+            ops.append(["SetBits", [rng.randrange(2) for _ in idx], idx])
+        return {"qubits": [], "bits": bits, "ops": ops}
     if allow_stray and rng.random() < 0.15:
         k = rng.random()
         if k < 0.4:
@@ -630,6 +660,8 @@ def gen_circuit(rng, small=False, allow_stray=True, odd_syms=False):
     rng.shuffle(qubits)
     rng.shuffle(bits)
     ns = rng.choice([0, 0, 1, 2, 2, 3, 4]) if not small else rng.choice([0, 1, 2])
+    if degenerate:
+        ns = rng.choice([0, 0, 1])
     syms = rng.sample(SYMS, ns)
     if odd_syms:
         syms = syms[:1] + [rng.choice(ODD_SYMS)]
@@ -666,8 +698,8 @@ def gen_stub(rng, case):
     if r < 0.35:
         pass  # the exact signature
     else:
-        for _ in range(rng.choice([1, 1, 2])):
-            k = rng.randrange(12)
+        for _ in range(rng.choice([1, 1, 1, 2])):
+            k = rng.choice([0, 1, 2, 3, 3, 3, 4, 5, 6, 7, 8, 9, 10, 11])
             if k == 0 and params:
                 params.pop(rng.randrange(len(params)))
             elif k == 1:
@@ -696,6 +728,57 @@ def gen_stub(rng, case):
     return {"params": params, "ret": ret, "body": body}
 
 
+def boundary_cases():
+    """explicit degenerate shapes, every one in both modes (always run, both tiers)"""
+    shapes = [
+        ([], [["c", 0]], []),                                              # no qubits, one bit
+        ([], [["lo", 0], ["hi", 1], ["hi", 0]], []),                       # no qubits, two bit registers
+        ([], [["lo", 0], ["hi", 1], ["hi", 0]], [["SetBits", [1, 0], [0, 2]]]),
+        ([], [["m", 0], ["c", 0], ["k", 0], ["C", 0]], []),                # no qubits, four 1-bit registers
+        ([], [], []),                                                      # nothing at all
+        ([["q", 0]], [], []),                                              # one qubit, no bits, no parameters
+        ([["z", 0], ["a", 0], ["q", 0], ["Q", 0], ["b", 0]], [], [["CX", 0, 1]]),  # many 1-qubit registers
+        ([["z", 0], ["a", 0], ["q", 0]], [["m", 0], ["c", 0], ["C", 0]], [["Measure", 0, 0], ["Measure", 2, 1]]),
+        ([["q", 0]], [["c", 0]], [["Rz", [[1, "t"]], 0], ["Measure", 0, 0]]),  # all singletons with a parameter
+        ([["q", 1], ["q", 0], ["q", 2]], [], [["Rx", [[1, "b"]], 1], ["Rz", [[1, "a"]], 0]]),  # no bits, two parameters
+        ([], [["c", 1]], []),                                              # no qubits, a bit outside a complete register
+    ]
+    out = []
+    for qs, bs, ops in shapes:
+        for ua in (False, True):
+            out.append({"kind": "load", "ua": ua, "qubits": qs, "bits": bs, "ops": ops})
+    return out
+
+
+def boundary_stubs():
+    """explicit single-deviation stubs for one asymmetric circuit (always run, both tiers)"""
+    base = {"kind": "stub", "ua": False, "qubits": [["z", 0], ["a", 0]], "bits": [["m", 0], ["c", 0]],
+            "ops": [["Rz", [[1, "t"]], 0], ["Rx", [[1, "a"]], 1], ["Measure", 0, 0]]}
+    q, qo, an = ["qubit", False], ["qubit", True], ["angle", False]
+    ret = "tuple[bool, bool]"
+    variants = [
+        ([q, q, an, an], ret, "ellipsis"),            # exact
+        ([qo, q, an, an], ret, "ellipsis"),           # first qubit owned
+        ([q, qo, an, an], ret, "ellipsis"),           # second qubit owned
+        ([qo, qo, an, an], ret, "ellipsis"),          # all qubits owned
+        ([q, an, q, an], ret, "ellipsis"),            # order
+        ([an, an, q, q], ret, "ellipsis"),
+        ([q, q, an], ret, "ellipsis"),                # one angle short
+        ([q, an, an], ret, "ellipsis"),               # one qubit short
+        ([q, q, q, an, an], ret, "ellipsis"),
+        ([q, q, ["float", False], an], ret, "ellipsis"),
+        ([q, q, an, an], "bool", "ellipsis"),
+        ([q, q, an, an], "tuple[bool, bool, bool]", "ellipsis"),
+        ([q, q, an, an], "None", "ellipsis"),
+        ([q, q, an, an], "array[bool, 2]", "ellipsis"),
+        ([["array[qubit, 2]", False], an, an], ret, "ellipsis"),
+        ([q, q, ["array[angle, 2]", False]], ret, "ellipsis"),
+        ([q, q, an, an], ret, "pass"),
+        ([q, q, an, an], None, "ellipsis"),
+    ]
+    return [{**base, "stub": {"params": [list(p) for p in ps], "ret": r, "body": b}} for ps, r, b in variants]
+
+
 def _canon(case):
     return json.dumps(case, sort_keys=True, separators=(",", ":"))
 
@@ -710,9 +793,15 @@ def _cases(ctx):
                     cases.append(c)
     if ctx.replay_in and "case" in ctx.replay_in.get("replay", {}):
         cases.append(ctx.replay_in["replay"]["case"])
+    cases.extend(boundary_cases())
+    cases.extend(boundary_stubs())
     rng = ctx.rng
     for _ in range(ctx.n(45, 1000)):
         base = gen_circuit(rng)
+        for ua in (False, True):
+            cases.append({"kind": "load", "ua": ua, **base})
+    for _ in range(ctx.n(12, 300)):
+        base = gen_circuit(rng, degenerate=True)
         for ua in (False, True):
             cases.append({"kind": "load", "ua": ua, **base})
     for _ in range(ctx.n(5, 60)):
@@ -720,6 +809,9 @@ def _cases(ctx):
         cases.append({"kind": "load", "ua": rng.random() < 0.5, **base})
     for _ in range(ctx.n(60, 1200)):
         base = gen_circuit(rng, small=True, allow_stray=rng.random() < 0.3)
+        cases.append({"kind": "stub", "ua": False, **base, "stub": gen_stub(rng, base)})
+    for _ in range(ctx.n(8, 150)):
+        base = gen_circuit(rng, small=True, allow_stray=False, degenerate=True)
         cases.append({"kind": "stub", "ua": False, **base, "stub": gen_stub(rng, base)})
     return cases
 
@@ -826,6 +918,10 @@ def search(ctx, why):
     cases = []
     for _ in range(ctx.n(150, 600)):
         base = gen_circuit(rng)
+        for ua in (False, True):
+            cases.append({"kind": "load", "ua": ua, **base})
+    for _ in range(ctx.n(60, 300)):
+        base = gen_circuit(rng, degenerate=True)
         for ua in (False, True):
             cases.append({"kind": "load", "ua": ua, **base})
     for _ in range(ctx.n(100, 400)):
